@@ -342,7 +342,13 @@ where
                         slots[w].1.store(t0.elapsed().as_millis() as u64, Ordering::Relaxed);
                         slots[w].0.store(idx, Ordering::Release);
                         let before = agg.violations.len();
-                        f(idx, &mut agg);
+                        // the engines catch panics of the system under test themselves; one that arrives here is
+                        // the harness's own and must not be mistaken for a run that never returns
+                        if let Err(e) = std::panic::catch_unwind(std::panic::AssertUnwindSafe(|| f(idx, &mut agg))) {
+                            let msg = e.downcast_ref::<String>().cloned().or_else(|| e.downcast_ref::<&str>().map(|s| s.to_string())).unwrap_or_default();
+                            println!("harness error: run {idx} panicked outside the system under test: {msg}");
+                            std::process::exit(2);
+                        }
                         slots[w].0.store(u64::MAX, Ordering::Release);
                         if agg.violations.len() > before {
                             stop_at.fetch_min(idx, Ordering::Relaxed);
@@ -414,7 +420,14 @@ pub fn with_timeout<R: Send + 'static>(f: impl FnOnce() -> R + Send + 'static) -
             let _ = tx.send(f());
         })
         .expect("spawn");
-    rx.recv_timeout(run_timeout()).ok()
+    match rx.recv_timeout(run_timeout()) {
+        Ok(r) => Some(r),
+        Err(std::sync::mpsc::RecvTimeoutError::Timeout) => None,
+        Err(std::sync::mpsc::RecvTimeoutError::Disconnected) => {
+            println!("harness error: the helper thread panicked outside the system under test");
+            std::process::exit(2)
+        }
+    }
 }
 
 // ---------------------------------------------------------------------------
